@@ -123,9 +123,11 @@ KILL_ANCHORS = [
 
 
 def gen_inputs(d: Draw, max_cases):
-    ndim = d.weighted([(1, 3), (2, 4), (3, 2)])
+    long_axis = max_cases >= 28          # a grid with a two-digit index along one axis (directory names stop sorting numerically)
+    ndim = d.weighted([(1, 3), (2, 4), (3, 2)]) if not long_axis else d.weighted([(1, 1), (2, 2)])
     inputs = []
     names = d.shuffled(NAME_POOL)[:ndim]
+    long_dim = d.below(ndim) if long_axis else -1
     for di in range(ndim):
         scale = d.pick(['linear', 'linear', 'log'])
         if scale == 'log':
@@ -133,6 +135,8 @@ def gen_inputs(d: Draw, max_cases):
         else:
             start, end = d.pick([(0.0, 1.0), (-1.0, 1.0), (10.0, 50.0), (0.1, 0.9), (273.15, 1800.0)])
         n = d.between(1, 4)
+        if long_axis:
+            n = d.between(11, 14) if di == long_dim else d.between(1, 2)
         mkind = d.weighted([('empty', 3), ('list', 3), ('tuple', 3)])
         vals = []
         if mkind != 'empty':
@@ -171,7 +175,7 @@ def estimate_steps(plan, ref):
 
 def gen_plan(seed: int, tier: str):
     d = Draw(seed)
-    max_cases = d.pick([4, 8, 12, 24])
+    max_cases = d.weighted([(4, 3), (8, 3), (12, 3), (24, 3), (30, 2)])
     inputs = gen_inputs(d, max_cases)
     plan = {
         'engine': 'mpstudy', 'seed': seed,
